@@ -10,7 +10,8 @@ def engines : List (String × (List String → String)) := [
   ("decomp", Wpull.Decomp.handle),
   ("table", Wpull.Table.handle),
   ("pool", Wpull.Pool.handle),
-  ("url", Wpull.Url.handle)
+  ("url", Wpull.Url.handle),
+  ("filter", Wpull.Filter.handle)
 ]
 
 def handle (line : String) : String :=
